@@ -100,23 +100,41 @@ def oracle(case, impl_lines, model_lines):
     return first
 
 
+def tainted_at(case, model_lines):
+    """step -> set of memo keys whose (restored) origin has lost an untracked dependency: the
+    model's ghost line `L` says which memos lose one at a snapshot; a restored memo keeps the
+    flattened origin (also through later snapshots) until it is re-executed."""
+    d = se.split_lines(model_lines)
+    lost = pe.lost_lines(model_lines)
+    tree = se.parse_sx(case)
+    hist = next(x for x in tree[2:] if isinstance(x, list) and x and x[0] == "hist")[1:]
+    taint = set()
+    image_taint = set()
+    out = {}
+    for i, op in enumerate(hist):
+        if op[0] == "snapshot":
+            image_taint = set(taint) | lost.get(i, set())
+        elif op[0] == "restore":
+            taint = set(image_taint)
+        out[i] = set(taint)
+        for e in d["E"].get(i, "").split():
+            t, k = e.split(":")
+            if t == "x":
+                taint.discard(k)
+    return out
+
+
 def finding_class(case, diff, impl_lines, model_lines):
     if diff.get("level") == "spec":
-        lost = pe.lost_lines(model_lines)
-        tree = se.parse_sx(case)
-        hist = next(x for x in tree[2:] if isinstance(x, list) and x and x[0] == "hist")[1:]
+        taint = tainted_at(case, model_lines)
         classes = set()
         for step, impl, _want in diff.get("all_spec", [(diff["step"], diff["impl"], diff["model"])]):
             if impl == "panic 8":
                 classes.add("uninitialised-ingredient-panic")
                 continue
-            # the snapshot in effect at this step: the last snapshot before the last restore before it
-            rs = [j for j in range(step) if hist[j][0] == "restore"]
-            if rs:
-                ss = [j for j in range(rs[-1]) if hist[j][0] == "snapshot"]
-                if ss and lost.get(ss[-1]):
-                    classes.add("flattened-untracked-dependency")
-                    continue
+            if taint.get(step):
+                classes.add("flattened-untracked-dependency")
+                continue
             return None
         # a case is attributed to a class only if every difference in it is explained
         if classes == {"uninitialised-ingredient-panic"}:
@@ -158,4 +176,4 @@ def run(ctx):
 
 
 def replay(ctx, rp):
-    return diffcheck.replay(ctx, pe, rp)
+    return diffcheck.replay(ctx, pe, rp, oracle=oracle)
